@@ -9,6 +9,8 @@ import (
 	"path/filepath"
 	"sort"
 	"strings"
+	"sync"
+	"sync/atomic"
 	"syscall"
 	"time"
 
@@ -350,7 +352,7 @@ func walkLower(r *vf.Run, prefix, mp string, mode layer.OverlayOpaqueType, exp *
 // checkStateFileSys reads the state file through the kernel (clause 5 without Info()).
 func checkStateFileSys(r *vf.Run, prefix, mp, wantDigest string, wantSize int64, ctx map[string]any) {
 	p := filepath.Join(mp, oc.StateDir, wantDigest+".json")
-	b, err := os.ReadFile(p)
+	b, err := readStateSys(p)
 	if err != nil {
 		r.Violate(prefix+":state:file-unreadable", fmt.Sprintf("read %s/%s.json: %v", oc.StateDir, wantDigest, errText(err)), ctx)
 		return
@@ -373,6 +375,85 @@ func checkStateFileSys(r *vf.Run, prefix, mp, wantDigest string, wantSize int64,
 		r.Violate(prefix+":state:dir-listing", fmt.Sprintf("state directory listing %v (%v)", ents, err), ctx)
 	}
 	r.Count(prefix+"_state_files_parsed", 1)
+}
+
+// readStateSys reads the state file with O_DIRECT: one read(2) is one FUSE READ whose
+// reply reaches the caller as the server wrote it. A buffered read is clamped by the kernel
+// to the file size it cached from an earlier GETATTR, which legitimately lags behind a
+// state file whose JSON just grew by a digit, so a buffered short read proves nothing.
+func readStateSys(p string) ([]byte, error) {
+	fd, err := unix.Open(p, unix.O_RDONLY|unix.O_DIRECT, 0)
+	if err != nil {
+		return os.ReadFile(p)
+	}
+	defer unix.Close(fd)
+	buf := make([]byte, 1<<16)
+	n, err := unix.Pread(fd, buf, 0)
+	if err != nil {
+		return nil, err
+	}
+	return buf[:n], nil
+}
+
+// concurrentStateSys (clause 5b through the kernel): readers of the state file of a freshly
+// mounted layer run while another goroutine reads every regular file (the fetched size
+// grows) and stats the state file. Every reply must be valid JSON with digest and size.
+func concurrentStateSys(r *vf.Run, mp, wantDigest string, wantSize int64, ctx map[string]any) {
+	p := filepath.Join(mp, oc.StateDir, wantDigest+".json")
+	if fd, err := unix.Open(p, unix.O_RDONLY|unix.O_DIRECT, 0); err != nil {
+		r.Count("kernel_concurrent_state_skipped_no_O_DIRECT", 1)
+		return
+	} else {
+		unix.Close(fd)
+	}
+	var wg sync.WaitGroup
+	var done atomic.Bool
+	var replies atomic.Int64
+	for g := 0; g < 3; g++ {
+		wg.Add(1)
+		go func() {
+			defer wg.Done()
+			for i := 0; i < 300 && !done.Load(); i++ {
+				b, err := readStateSys(p)
+				if err != nil {
+					r.Violate("kernel-lower:state:file-unreadable", "concurrent read of the state file: "+errText(err), ctx)
+					return
+				}
+				var doc struct {
+					Digest      string `json:"digest"`
+					Size        *int64 `json:"size"`
+					FetchedSize *int64 `json:"fetchedSize"`
+				}
+				if err := json.Unmarshal(b, &doc); err != nil {
+					rp := map[string]any{"state_file": string(b), "reply": "concurrent readers through the kernel (O_DIRECT)"}
+					for k, v := range ctx {
+						rp[k] = v
+					}
+					r.Violate("state:not-json", fmt.Sprintf("state file read through the kernel while file data is fetched does not parse: %v: %q", err, b), rp)
+				} else if doc.Digest != wantDigest || doc.Size == nil || *doc.Size != wantSize || doc.FetchedSize == nil || *doc.FetchedSize < 0 || *doc.FetchedSize > wantSize {
+					r.Violate("kernel-lower:state:content", fmt.Sprintf("state file %q, want digest %s size %d and 0<=fetchedSize<=size", b, wantDigest, wantSize), ctx)
+				}
+				replies.Add(1)
+			}
+		}()
+	}
+	// the fetch driver: read every regular file, stat the state file in between
+	n := 0
+	_ = filepath.WalkDir(mp, func(fp string, d os.DirEntry, err error) error {
+		if err != nil || n > 2000 {
+			return filepath.SkipDir
+		}
+		n++
+		if d.Type().IsRegular() {
+			_, _ = os.ReadFile(fp)
+			var st unix.Stat_t
+			_ = unix.Lstat(p, &st)
+		}
+		return nil
+	})
+	done.Store(true)
+	wg.Wait()
+	r.Count("kernel_concurrent_state_replies_judged", int(replies.Load()))
 }
 
 // ---------------------------------------------------------------------------
@@ -403,7 +484,9 @@ func kernelStage(r *vf.Run) {
 		k := envKey{store, mode}
 		env := envs[k]
 		if env == nil {
-			env, err = l2.NewEnv(reg, filepath.Join(r.Scratch, "k-"+store+"-"+modeName(mode)), config.Config{}, store, mode, 0)
+			kcfg := config.Config{}
+			kcfg.BlobConfig.ChunkSize = 512 // piecewise fetch: the state file changes while files are read
+			env, err = l2.NewEnv(reg, filepath.Join(r.Scratch, "k-"+store+"-"+modeName(mode)), kcfg, store, mode, 0)
 			if err != nil {
 				r.Inconclusive("harness: l2.NewEnv: " + err.Error())
 				continue
@@ -455,6 +538,7 @@ func kernelCase(r *vf.Run, ki int, rng *prng.R, env *l2.Env, bs *builtStack, sto
 				forceUnmount(mp)
 			}
 		})
+		concurrentStateSys(r, mp, bs.im.Layers[i].Digest.String(), int64(len(bs.blobs[i].Blob)), lctx)
 		if _, ok := walkLower(r, "kernel-lower", mp, mode, bs.exp[i], bs.raws[i], lctx); !ok {
 			return
 		}
